@@ -57,6 +57,13 @@ pub struct Plan {
     /// Exec tier only: the resident set size (KiB) that /proc/self/status and /proc/self/statm
     /// report to the process. Memory statistics belong to the machine, not to the input file.
     pub rss_kib: u64,
+    /// History fault (launches that read the file from disk): before this launch the same path
+    /// held a *sibling version* of the file - same length, a few bytes different, derived from
+    /// this number - which was launched with the same command and the same plan; then the true
+    /// bytes were put back with the same modification time (an in-place edit within the clock's
+    /// granularity, or a tool that preserves times). Whatever that earlier launch left behind
+    /// (a cache, an index, a stamp) is found by this one. 0 = no such history.
+    pub prior_edit: u32,
 }
 
 pub const REF_RSS_KIB: u64 = 8192;
@@ -82,6 +89,7 @@ impl Plan {
             stall: vec![],
             linger: vec![],
             rss_kib: REF_RSS_KIB,
+            prior_edit: 0,
         }
     }
 
@@ -121,6 +129,7 @@ impl Plan {
             "stall": self.stall,
             "linger": self.linger,
             "rss_kib": self.rss_kib,
+            "prior_edit": self.prior_edit,
         })
     }
 
@@ -149,6 +158,7 @@ impl Plan {
             stall: list_u32(v.get("stall")),
             linger: list_u32(v.get("linger")),
             rss_kib: v.get("rss_kib").and_then(Value::as_u64).unwrap_or(REF_RSS_KIB),
+            prior_edit: v.get("prior_edit").and_then(Value::as_u64).unwrap_or(0) as u32,
         })
     }
 }
@@ -647,4 +657,169 @@ pub unsafe extern "C" fn open64(path: *const std::ffi::c_char, flags: c_int, mod
     }
     // SAFETY: plain system call with the caller's arguments.
     unsafe { syscall(SYS_OPENAT, AT_FDCWD, path, flags | O_LARGEFILE, mode) as c_int }
+}
+
+/// What a launch thread is told by the resource-accounting calls (see the shim: getrusage, times,
+/// clock, sysinfo, sched_getcpu). `None` for threads that are not launches.
+fn accounting_plan(advance: bool) -> Option<(u64, u64, [u8; 16], u64)> {
+    STATE
+        .try_with(|s| {
+            let Ok(mut s) = s.try_borrow_mut() else { return None };
+            if !s.installed {
+                return None;
+            }
+            if advance {
+                s.clock_reads += 1;
+            }
+            s.pid_reads += 1;
+            Some((s.clock_step_ns.saturating_mul(s.clock_reads), s.rss_kib, s.key, s.clock_base))
+        })
+        .unwrap_or(None)
+}
+
+const SYS_GETRUSAGE: std::ffi::c_long = 98;
+const SYS_TIMES: std::ffi::c_long = 100;
+const SYS_SYSINFO: std::ffi::c_long = 99;
+const SYS_GETCPU: std::ffi::c_long = 309;
+
+/// `struct rusage`: two timevals, then fourteen longs starting with `ru_maxrss`.
+#[repr(C)]
+pub struct Rusage {
+    utime: [i64; 2],
+    stime: [i64; 2],
+    rest: [i64; 14],
+}
+
+/// Resource-usage seam, in-process side.
+///
+/// # Safety
+/// `ru` must be null or valid for writes, as for the libc function it replaces.
+#[cfg(all(target_os = "linux", target_arch = "x86_64"))]
+#[unsafe(no_mangle)]
+pub unsafe extern "C" fn getrusage(who: c_int, ru: *mut Rusage) -> c_int {
+    // SAFETY: plain system call with the caller's arguments.
+    let r = unsafe { syscall(SYS_GETRUSAGE, who as std::ffi::c_long, ru) } as c_int;
+    if r != 0 || ru.is_null() {
+        return r;
+    }
+    if let Some((ns, rss, key, _)) = accounting_plan(true) {
+        // SAFETY: the kernel has just filled `*ru`.
+        let ru = unsafe { &mut *ru };
+        ru.utime = [(ns / 1_000_000_000) as i64, (ns % 1_000_000_000 / 1000) as i64];
+        ru.stime = ru.utime;
+        if rss > 0 {
+            ru.rest[0] = rss as i64;
+        }
+        ru.rest[4] = 100 + 37 * i64::from(key[6]); // minflt
+        ru.rest[5] = i64::from(key[7] % 4); // majflt
+        ru.rest[7] = 8 * i64::from(key[10] % 8); // inblock
+        ru.rest[8] = 0; // oublock
+        ru.rest[12] = i64::from(key[8]); // nvcsw
+        ru.rest[13] = i64::from(key[9]); // nivcsw
+    }
+    0
+}
+
+/// # Safety
+/// `buf` must be null or valid for four `clock_t`s.
+#[cfg(all(target_os = "linux", target_arch = "x86_64"))]
+#[unsafe(no_mangle)]
+pub unsafe extern "C" fn times(buf: *mut [i64; 4]) -> i64 {
+    match accounting_plan(true) {
+        Some((ns, _, _, base)) => {
+            let ticks = (ns / 10_000_000) as i64;
+            if !buf.is_null() {
+                // SAFETY: the caller guarantees `buf` is valid for writes.
+                unsafe { *buf = [ticks, ticks, 0, 0] };
+            }
+            (base % 10_000_000) as i64 * 100 + ticks
+        }
+        // SAFETY: plain system call with the caller's argument.
+        None => unsafe { syscall(SYS_TIMES, buf) },
+    }
+}
+
+#[cfg(all(target_os = "linux", target_arch = "x86_64"))]
+#[unsafe(no_mangle)]
+pub extern "C" fn clock() -> i64 {
+    match accounting_plan(true) {
+        Some((ns, _, _, _)) => (ns / 1000) as i64,
+        None => {
+            let mut ts = Timespec { tv_sec: 0, tv_nsec: 0 };
+            // SAFETY: plain system call on a local.
+            if unsafe { syscall(SYS_CLOCK_GETTIME, 2 /* CLOCK_PROCESS_CPUTIME_ID */, &mut ts) } != 0 {
+                return -1;
+            }
+            ts.tv_sec * 1_000_000 + ts.tv_nsec / 1000
+        }
+    }
+}
+
+/// `struct sysinfo` on x86-64 Linux.
+#[repr(C)]
+pub struct SysInfo {
+    uptime: i64,
+    loads: [u64; 3],
+    totalram: u64,
+    freeram: u64,
+    sharedram: u64,
+    bufferram: u64,
+    totalswap: u64,
+    freeswap: u64,
+    procs: u16,
+    pad: u16,
+    totalhigh: u64,
+    freehigh: u64,
+    mem_unit: u32,
+}
+
+/// # Safety
+/// `info` must be null or valid for writes of a `struct sysinfo`.
+#[cfg(all(target_os = "linux", target_arch = "x86_64"))]
+#[unsafe(no_mangle)]
+pub unsafe extern "C" fn sysinfo(info: *mut SysInfo) -> c_int {
+    // SAFETY: plain system call with the caller's argument.
+    let r = unsafe { syscall(SYS_SYSINFO, info) } as c_int;
+    if r != 0 || info.is_null() {
+        return r;
+    }
+    if let Some((_, rss, key, base)) = accounting_plan(false) {
+        // SAFETY: the kernel has just filled `*info`.
+        let info = unsafe { &mut *info };
+        let unit = u64::from(info.mem_unit.max(1));
+        let total_kib: u64 = 64 << 20;
+        let avail_kib = if rss >= 2_000_000 {
+            2048
+        } else if rss > 0 && rss < total_kib {
+            total_kib - (rss * 16) % total_kib
+        } else {
+            1024
+        };
+        info.uptime = (base % 10_000_000) as i64;
+        info.totalram = total_kib * 1024 / unit;
+        info.freeram = avail_kib * 1024 / unit;
+        info.bufferram = 0;
+        info.sharedram = 0;
+        info.totalswap = 0;
+        info.freeswap = 0;
+        info.loads = [u64::from(key[0] % 16) << 16, 1 << 15, 1 << 14];
+        info.procs = 100 + u16::from(key[2]);
+    }
+    0
+}
+
+#[cfg(all(target_os = "linux", target_arch = "x86_64"))]
+#[unsafe(no_mangle)]
+pub extern "C" fn sched_getcpu() -> c_int {
+    match accounting_plan(false) {
+        Some((_, _, key, _)) => c_int::from(key[5] % 16),
+        None => {
+            let mut cpu: c_uint = 0;
+            // SAFETY: plain system call on a local.
+            if unsafe { syscall(SYS_GETCPU, &mut cpu, std::ptr::null_mut::<c_uint>(), std::ptr::null_mut::<c_void>()) } != 0 {
+                return -1;
+            }
+            cpu as c_int
+        }
+    }
 }
